@@ -120,3 +120,4 @@ Definition q_model (x : sx) : sx :=
 Definition impl_events (i : sx) : list ev :=
   flat_map (fun st => flat_map (fun e => opt_list (dec_ev e)) (sx_list (sx_nth st 2))) (sx_list i).
 Definition all_labels (x : sx) : list label := flat_map (fun l => opt_list (dec_label l)) (dec_labels x).
+
